@@ -1907,6 +1907,9 @@ func termOf(v ssa.Value, depth int) string {
 	}
 	switch x := v.(type) {
 	case *ssa.Parameter:
+		if b := bound(x); b != ssa.Value(x) {
+			return termOf(b, depth)
+		}
 		return x.Name()
 	case *ssa.Const:
 		if x.Value == nil {
@@ -1929,6 +1932,13 @@ func termOf(v ssa.Value, depth int) string {
 		}
 		return x.Op.String() + "(" + termOf(x.X, depth-1) + ")"
 	case *ssa.Call:
+		// an expression moved into a small helper with a single result and a single return is rendered as if
+		// written in place (its parameters stand for the arguments)
+		if g := x.Call.StaticCallee(); isSmallHelper(g) && g.Signature.Results().Len() == 1 {
+			if rets := enterHelper(x); len(rets) == 1 {
+				return termOf(rets[0], depth)
+			}
+		}
 		name := "call"
 		if o := calleeObj(x); o != nil {
 			name = o.Name()
@@ -2094,4 +2104,107 @@ func contradictoryAtoms(atoms []Atom) bool {
 		}
 	}
 	return false
+}
+
+// snapshotBinds / restoreBinds: a property whose rules all judge one set of
+// path conditions computed once (C12's decision table) keeps the helper
+// bindings those conditions were normalised under across its rules.
+func snapshotBinds() map[*ssa.Parameter]ssa.Value {
+	m := map[*ssa.Parameter]ssa.Value{}
+	for k, v := range paramBind {
+		m[k] = v
+	}
+	return m
+}
+
+func restoreBinds(m map[*ssa.Parameter]ssa.Value) {
+	for k, v := range m {
+		paramBind[k] = v
+	}
+}
+
+// withSplitOffHelpers: fn, its small helpers, and the unexported repository
+// functions whose only caller is fn (a part of fn split off into a function of
+// any size). bindSplitOff binds the parameters of such callees to fn's
+// arguments so that values inside them resolve to fn's own values.
+func withSplitOffHelpers(w *World, fn *ssa.Function) []*ssa.Function {
+	out := withSmallHelpers(fn)
+	seen := map[*ssa.Function]bool{}
+	for _, f := range out {
+		seen[f] = true
+	}
+	for _, ci := range callInstrs(fn) {
+		if h := ci.Common().StaticCallee(); h != nil && !seen[h] && splitOffHelper(w, h) {
+			seen[h] = true
+			out = append(out, h)
+		}
+	}
+	return out
+}
+
+func bindSplitOff(w *World, fn *ssa.Function) {
+	for _, ci := range callInstrs(fn) {
+		h := ci.Common().StaticCallee()
+		if h == nil || !(isSmallHelper(h) || splitOffHelper(w, h)) {
+			continue
+		}
+		for i, prm := range h.Params {
+			if i < len(ci.Common().Args) {
+				paramBind[prm] = ci.Common().Args[i]
+			}
+		}
+	}
+}
+
+// EntryAlt is one concrete value an interface-typed argument can hold, with
+// the block (and branch) under which it was chosen.
+type EntryAlt struct {
+	Val  ssa.Value       // the concrete (pre-MakeInterface) value
+	Pred *ssa.BasicBlock // block whose facts apply to this alternative (nil: the use site's own)
+	Edge *Fact           // branch taken from Pred towards the merge
+}
+
+// entryAlternatives expands an interface value chosen in branches
+// (var e I; if … { e = A{} } else { e = B{} }; use(e)) into its alternatives.
+func entryAlternatives(v ssa.Value) []EntryAlt {
+	var out []EntryAlt
+	seen := map[ssa.Value]bool{}
+	var walk func(v ssa.Value, pred *ssa.BasicBlock, edge *Fact)
+	walk = func(v ssa.Value, pred *ssa.BasicBlock, edge *Fact) {
+		if seen[v] {
+			return
+		}
+		seen[v] = true
+		switch x := v.(type) {
+		case *ssa.MakeInterface:
+			out = append(out, EntryAlt{x.X, pred, edge})
+		case *ssa.ChangeInterface:
+			walk(x.X, pred, edge)
+		case *ssa.Phi:
+			for i, e := range x.Edges {
+				p := x.Block().Preds[i]
+				var ef *Fact
+				if ifi, ok := p.Instrs[len(p.Instrs)-1].(*ssa.If); ok && p.Succs[0] != p.Succs[1] {
+					ef = &Fact{Cond: ifi.Cond, Truth: p.Succs[0] == x.Block(), If: ifi}
+				}
+				walk(e, p, ef)
+			}
+		default:
+			out = append(out, EntryAlt{v, pred, edge})
+		}
+	}
+	walk(v, nil, nil)
+	return out
+}
+
+// Atoms of the conditions under which the alternative is chosen, seen from site.
+func (e EntryAlt) AtomsAt(site ssa.Instruction) []Atom {
+	if e.Pred == nil {
+		return atomsOf(factsAtInstr(site))
+	}
+	f := factsAtRaw(e.Pred)
+	if e.Edge != nil {
+		f = append(f, *e.Edge)
+	}
+	return atomsOf(expandFlags(f))
 }
